@@ -197,6 +197,54 @@ func doReplay(path, out string) {
 	if err != nil {
 		panic(err)
 	}
+	var probe struct {
+		Case struct {
+			Threads [][]Call  `json:"threads"`
+			Segs    []DiskSeg `json:"segs"`
+		} `json:"case"`
+	}
+	_ = json.Unmarshal(b, &probe)
+	switch {
+	case probe.Case.Threads != nil:
+		// a scheduled execution: same engine, setup, threads and schedule (the recorded schedule
+		// includes the drain steps)
+		var rp struct {
+			Case ConcCase `json:"case"`
+		}
+		if err := json.Unmarshal(b, &rp); err != nil {
+			panic(err)
+		}
+		c := rp.Case
+		sink := NewSink(out, concPrelude, "ccase", "check_conc", 10)
+		for _, en := range engines() {
+			if en.name != c.Store {
+				continue
+			}
+			r := runConc(en, c.Setup, c.Threads, c.Sched, c.Final, c.Bulk, c.Tag)
+			js, _ := json.Marshal(r)
+			sink.AddPre(r.pseudo(), r.coq(), js, true)
+		}
+		sink.Close("replay of one recorded scheduled case", false)
+		return
+	case probe.Case.Segs != nil:
+		var rp struct {
+			Case DiskCase `json:"case"`
+		}
+		if err := json.Unmarshal(b, &rp); err != nil {
+			panic(err)
+		}
+		var segs []SegPlan
+		for _, sg := range rp.Case.Segs {
+			segs = append(segs, SegPlan{Prog: sg.Prog, Crash: sg.Crash})
+		}
+		sink := NewSink(out, diskPrelude, "dcase", "check_disk", 3)
+		sink.oracle = "oracle_disk"
+		r := runDiskCase(segs, rp.Case.Tag)
+		js, _ := json.Marshal(r)
+		sink.AddPre(r.pseudo(), r.coq(), js, true)
+		sink.Close("replay of one recorded crash/restart case", false)
+		return
+	}
 	var rp struct {
 		Case Case `json:"case"`
 	}
